@@ -2256,7 +2256,7 @@ func (s *Store) deleteServiceTxn(tx WriteTxn, idx uint64, nodeName, serviceID st
 
 	// The virtual IP of a sidecar proxy's destination is kept for as long as a proxy advertises
 	// it; release it with the last proxy if nothing else needs it any more.
-	if svc.ServiceKind == structs.ServiceKindConnectProxy && svc.ServiceProxy.DestinationServiceName != "" {
+	if svc.PeerName == "" && svc.ServiceKind == structs.ServiceKindConnectProxy && svc.ServiceProxy.DestinationServiceName != "" {
 		dest := structs.PeeredServiceName{
 			Peer:        svc.PeerName,
 			ServiceName: structs.NewServiceName(svc.ServiceProxy.DestinationServiceName, &svc.EnterpriseMeta),
@@ -2302,12 +2302,16 @@ func freeServiceVirtualIP(
 	// Don't deregister the virtual IP while a sidecar proxy of this service still exists: the
 	// proxy advertises the address in its tagged addresses, whatever happened to the instances
 	// of the service itself.
-	if remainingProxy, err := tx.First(tableServices, indexConnect, q); err == nil {
-		if remainingProxy != nil {
-			return nil
+	// (Imported services keep releasing the address with the last instance of the service
+	// itself: the list of peered upstreams is derived from these assignments.)
+	if psn.Peer == "" {
+		if remainingProxy, err := tx.First(tableServices, indexConnect, q); err == nil {
+			if remainingProxy != nil {
+				return nil
+			}
+		} else {
+			return fmt.Errorf("failed connect service lookup for %q: %s", psn.ServiceName.Name, err)
 		}
-	} else {
-		return fmt.Errorf("failed connect service lookup for %q: %s", psn.ServiceName.Name, err)
 	}
 
 	// Don't deregister the virtual IP if at least one resolver/router/splitter config entry still
